@@ -869,11 +869,12 @@ func c10OutlinesSubset(r *run.Run) {
 // too few names reads as): subsetting keeps the names that exist.
 func c10ShortNames(r *run.Run) {
 	r.Explore(explore.Config{Name: "C10.subset-short-names"},
-		"6-glyph glyf fonts (6 component graphs) with a names list of 0..5 names (shorter than the glyph count) x ALL duplicate-free glyph lists starting with glyph 0 of length 1..4: Subset does not panic, glyph i of the subset has the name (possibly none) and the width of the listed glyph, and the subset can be written and read back",
+		"6-glyph glyf fonts (6 component graphs) with a names list of 0..5 names (shorter than the glyph count), composites with or without an instruction block of length 0, x ALL duplicate-free glyph lists starting with glyph 0 of length 1..4: Subset does not panic, glyph i of the subset has the name (possibly none) and the width of the listed glyph, and the subset can be written and read back",
 		func(c *explore.Ctx) {
 			f, _ := FontFromChoices(gen.FontOpts{NoMeta: true, NoLayout: true}, gen.KindGlyf, 1, 0, 0, 0)
 			gi := c.Choose(len(c10Graphs), "component graph")
 			nn := c.Choose(c10N, "names")
+			emptyInstr := c.Bool("composites with an empty instruction block")
 			ol := &glyf.Outlines{Maxp: &maxp.TTFInfo{MaxZones: 2, MaxComponentElements: 2, MaxComponentDepth: 4}}
 			for i := 0; i < c10N; i++ {
 				var g *glyf.Glyph
@@ -883,6 +884,13 @@ func c10ShortNames(r *run.Run) {
 						ids = append(ids, glyph.ID(k))
 					}
 					g = gen.CompositeGlyf(funit.Rect16{URx: funit.Int16(100 + i), URy: 700}, ids...)
+					if emptyInstr {
+						// the instruction flag with an instruction block of length 0 (legal; an empty, non-nil slice)
+						d := g.Data.(glyf.CompositeGlyph)
+						d.Components[len(d.Components)-1].Flags |= glyf.FlagWeHaveInstructions
+						d.Instructions = []byte{}
+						g.Data = d
+					}
 				} else if i != 2 {
 					g = gen.SimpleGlyf([][]gen.Pt{{{int16(i), 0, true}, {500, int16(10 * i), true}, {250, 700, true}}}, nil)
 				}
@@ -908,7 +916,7 @@ func c10ShortNames(r *run.Run) {
 				used[g] = true
 				list = append(list, g)
 			}
-			desc := fmt.Sprintf("graph %d, %d names, list %v", gi, nn, list)
+			desc := fmt.Sprintf("graph %d, %d names, empty instruction blocks %v, list %v", gi, nn, emptyInstr, list)
 			c.Sample(func() any { return desc })
 			c.Outcome(desc)
 			c.Nontrivial()
@@ -932,6 +940,16 @@ func c10ShortNames(r *run.Run) {
 			back, err := sfnt.Read(bytes.NewReader(buf.Bytes()))
 			if err != nil || back.NumGlyphs() != sub.NumGlyphs() {
 				c.Fail("C10.reread", "short names", "the written subset cannot be read back with %d glyphs: %v; %s", sub.NumGlyphs(), err, desc)
+				return
+			}
+			bo, so := back.Outlines.(*glyf.Outlines), sub.Outlines.(*glyf.Outlines)
+			for i := range so.Glyphs {
+				if !reflect.DeepEqual(bo.Glyphs[i], so.Glyphs[i]) && !(bo.Glyphs[i] == nil && so.Glyphs[i] == nil) {
+					if d := cmp.Diff(so.Glyphs[i], bo.Glyphs[i], cmpopts.EquateEmpty()); d != "" {
+						c.Fail("C10.reread", "short names outline", "glyph %d of the re-read subset differs from the subset in memory; %s:\n%s", i, desc, trimDiff(d))
+						return
+					}
+				}
 			}
 		})
 }
